@@ -54,6 +54,9 @@ type Config struct {
 	// (toggling between SpecA and ReloadSpecA); afterwards the rule in force is the new one, with fresh state
 	ReloadSpecA int64 `json:"reload_spec_a,omitempty"`
 	HasReload   bool  `json:"has_reload,omitempty"`
+	// ReloadCapacity > 0 (family F8): the reload changes ONLY ParamsMaxCapacity (toggling between Capacity and
+	// ReloadCapacity): the caches are sized by it, so the rule in force afterwards is a new one with fresh state
+	ReloadCapacity int64 `json:"reload_capacity,omitempty"`
 	// Exact (negative index only): requests carry exactly |index| arguments, so the index selects the FIRST one
 	Exact bool `json:"exactly_index_many_args,omitempty"`
 }
@@ -115,8 +118,12 @@ type scen struct {
 	lastReq   map[int]int64
 	sleeps    []time.Duration
 	specA     int64 // specific threshold of A in force
+	capacity  int64 // ParamsMaxCapacity in force
 	envA      int64 // the largest specific threshold of A that has been in force
 }
+
+// lruFamily: configurations whose capacity can lie below the number of values in play
+func (c Config) lruFamily() bool { return c.Family == "F4" || c.Family == "F8" }
 
 func (s *scen) Name() string        { return s.cfg.String() }
 func (s *scen) NumOps() int         { return len(s.ops) }
@@ -125,7 +132,7 @@ func (s *scen) Enabled(i int) bool  { return true }
 
 func (s *scen) mkRule(res string) *hotspot.Rule {
 	r := &hotspot.Rule{Resource: res, MetricType: hotspot.QPS, ControlBehavior: hotspot.Reject, ParamIndex: s.cfg.Index,
-		Threshold: s.cfg.T, BurstCount: s.cfg.Burst, DurationInSec: s.cfg.D, ParamsMaxCapacity: s.cfg.Capacity}
+		Threshold: s.cfg.T, BurstCount: s.cfg.Burst, DurationInSec: s.cfg.D, ParamsMaxCapacity: s.capacity}
 	if s.cfg.Throttle {
 		r.ControlBehavior = hotspot.Throttling
 		r.MaxQueueingTimeMs = s.cfg.MaxQ
@@ -152,6 +159,7 @@ func (s *scen) Reset() {
 	s.lastReq = map[int]int64{}
 	s.lru = s.lru[:0]
 	s.specA, s.envA = s.cfg.SpecA, s.cfg.SpecA
+	s.capacity = s.cfg.Capacity
 	s.loadRules()
 	s.prefixBad = ""
 	if s.cfg.Prefix > 0 {
@@ -283,6 +291,20 @@ func (s *scen) Apply(i int) (string, string) {
 
 func (s *scen) apply(i int) (string, string) {
 	o := s.ops[i]
+	if o.reload && s.cfg.ReloadCapacity > 0 {
+		if s.capacity == s.cfg.Capacity {
+			s.capacity = s.cfg.ReloadCapacity
+		} else {
+			s.capacity = s.cfg.Capacity
+		}
+		s.loadRules()
+		// caches of another size are other caches: nothing of the replaced rule's per-value state carries over
+		s.adm = map[int][]admission{}
+		s.firstSeen = map[int]int64{}
+		s.lastReq = map[int]int64{}
+		s.lru = s.lru[:0]
+		return "", ""
+	}
 	if o.reload {
 		if s.specA == s.cfg.SpecA {
 			s.specA = s.cfg.ReloadSpecA
@@ -318,7 +340,7 @@ func (s *scen) apply(i int) (string, string) {
 		return obs, ""
 	}
 	// differential independence: the private resource has only ever seen this value
-	if s.cfg.Family != "F4" {
+	if !s.cfg.lruFamily() {
 		env.Clock.SetMs(arrival) // same arrival time for the mirror call
 		b := s.call(fmt.Sprintf("only%d", o.val), o.val, o.batch)
 		env.Clock.SetMs(after)
@@ -342,7 +364,7 @@ func (s *scen) apply(i int) (string, string) {
 		idleFor = arrival - lr
 	}
 	s.lastReq[o.val] = arrival
-	if s.cfg.Family == "F4" {
+	if s.cfg.lruFamily() {
 		// More live values than the configured capacity: the per-value state lives in a least-
 		// recently-used cache, so a value keeps its state exactly as long as fewer than `capacity`
 		// OTHER values were used since its last request. The reference tracks that order; a value
@@ -361,8 +383,8 @@ func (s *scen) apply(i int) (string, string) {
 			idleFor = -1
 		}
 		s.lru = append([]int{o.val}, s.lru...)
-		if int64(len(s.lru)) > s.cfg.Capacity {
-			s.lru = s.lru[:s.cfg.Capacity]
+		if int64(len(s.lru)) > s.capacity {
+			s.lru = s.lru[:s.capacity]
 		}
 		if a.pass && !s.cfg.Throttle && int64(o.batch) > T+s.cfg.Burst {
 			return obs, fmt.Sprintf("%v admitted although the batch exceeds threshold+burst", o)
@@ -436,10 +458,10 @@ func (s *scen) apply(i int) (string, string) {
 
 func (s *scen) Key() string {
 	var b strings.Builder
-	fmt.Fprintf(&b, "lru%v|spec%d,%d|", s.lru, s.specA, s.envA)
+	fmt.Fprintf(&b, "lru%v|spec%d,%d|cap%d|", s.lru, s.specA, s.envA, s.capacity)
 	ress := []string{"shared"}
 	for v := range values {
-		if _, ok := s.firstSeen[v]; ok && s.cfg.Family != "F4" {
+		if _, ok := s.firstSeen[v]; ok && !s.cfg.lruFamily() {
 			ress = append(ress, fmt.Sprintf("only%d", v))
 		}
 	}
@@ -486,7 +508,7 @@ func (s *scen) Key() string {
 func mkOps(cfg Config) []opDef {
 	var ops []opDef
 	vals := []int{0, 1}
-	if cfg.Family == "F4" {
+	if cfg.lruFamily() {
 		vals = []int{0, 1, 2}
 	}
 	if cfg.ValueKinds {
@@ -564,6 +586,9 @@ func configs(quick bool) []Config {
 	out = append(out, Config{Family: "F7", T: 1, Burst: 0, D: 1, SpecA: 3, ReloadSpecA: 1, HasReload: true},
 		Config{Family: "F7", T: 2, Burst: 1, D: 1, SpecA: 1, ReloadSpecA: 4, HasReload: true},
 		Config{Family: "F7", Throttle: true, T: 1, D: 1, MaxQ: 1000, SpecA: 4, ReloadSpecA: 2, HasReload: true})
+	// F8 a reload that changes only the parameter capacity (raised from below the number of values, and lowered)
+	out = append(out, Config{Family: "F8", T: 2, Burst: 0, D: 1, SpecA: -1, Capacity: 2, ReloadCapacity: 100, HasReload: true},
+		Config{Family: "F8", Throttle: true, T: 2, D: 1, MaxQ: 500, SpecA: -1, Capacity: 100, ReloadCapacity: 1, HasReload: true})
 	// F4 capacity below the number of values
 	for _, capa := range []int64{1, 2} {
 		out = append(out, Config{Family: "F4", T: 2, Burst: 1, D: 1, SpecA: -1, Capacity: capa})
